@@ -42,8 +42,12 @@ def scanOp (s : Scanner) (op : String) (args : List String) : String × Scanner 
   | "smsetu", ks => let r := s.searchAndMoveOneTypeSetUseUpper ks; (showB r.1, r.2)
   | "src", [] => (match s.getAsSourceOrNull with | some x => qs x | none => "N", s)
   | "psrc", [] => (match s.popAsSource with | .ok (x, s') => (qs x, s') | .error e => (e.show, s))
-  | "gkid", [] => (match s.getAsChildrenScanner with | .ok c => s!"kids{c.elems.length}" | .error e => e.show, s)
-  | "pkid", [] => (match s.popAsChildrenScanner with | .ok (c, s') => (s!"kids{c.elems.length}", s') | .error e => (e.show, s))
+  | "gkid", [] => (match s.getAsChildrenScanner with | .ok c => s!"kids{c.elems.length}/{c.pos}" | .error e => e.show, s)
+  | "pkid", [] => (match s.popAsChildrenScanner with | .ok (c, s') => (s!"kids{c.elems.length}/{c.pos}", s') | .error e => (e.show, s))
+  -- look ahead INSIDE the group: take the child cursor, advance it by one token (if it has one), throw it away
+  | "gkadv", [] => (match s.getAsChildrenScanner with
+      | .ok c => (match c.pop with | .ok (_, c') => s!"kids{c'.elems.length}/{c'.pos}" | .error _ => s!"kids{c.elems.length}/{c.pos}")
+      | .error e => e.show, s)
   | "split", [sep] => (match s.popAsChildrenScannerListSplitBy sep with
       | .ok (cs, s') => ("split" ++ ",".intercalate (cs.map fun c => toString c.elems.length), s') | .error e => (e.show, s))
   | _, _ => ("BADOP", s)
